@@ -258,6 +258,13 @@ func (w *walker) exprs(pkg, at string, n ast.Node, g guards) {
 					if id, ok := f.X.(*ast.Ident); ok {
 						if fs, ok := pkgs[id.Name]; ok && fs[f.Sel.Name] != nil && strings.Contains(pkgDir[id.Name], "/internal/server") {
 							w.fn(id.Name, f.Sel.Name, g)
+						} else if !ok {
+							// a method of this package called on a receiver variable (s.announceNewMessages)
+							for n := range pkgs[pkg] {
+								if strings.HasSuffix(n, "."+f.Sel.Name) && !strings.HasPrefix(funcFile[pkg+"."+n], "testing_") {
+									w.fn(pkg, n, g)
+								}
+							}
 						}
 					}
 				}
@@ -276,7 +283,11 @@ func (w *walker) exprs(pkg, at string, n ast.Node, g guards) {
 
 // ---------- dispatch ----------
 
-type disp struct{ cmd, pkg, fn string }
+type disp struct {
+	cmd, pkg, fn string
+	body         []ast.Stmt // the whole case clause: what the dispatch loop itself does around the handler
+	in           string     // package of the dispatching function
+}
 
 func dispatchOf(pkg, fn, tag string) []disp {
 	var out []disp
@@ -324,7 +335,7 @@ func dispatchOf(pkg, fn, tag string) []disp {
 				})
 			}
 			for _, l := range labels {
-				out = append(out, disp{l, hp, hf})
+				out = append(out, disp{l, hp, hf, cc.Body, pkg})
 			}
 		}
 		return false
@@ -494,7 +505,17 @@ func main() {
 	emit := func(d disp, isUID bool, inherited guards) {
 		w := &walker{seen: map[string]bool{}}
 		if d.fn != "" {
-			w.fn(d.pkg, d.fn, inherited)
+			// the clause as a whole: the handler and whatever the dispatching loop does before and after it
+			var body []ast.Stmt
+			for _, st := range d.body {
+				if as, ok := st.(*ast.AssignStmt); ok && len(as.Rhs) == 1 {
+					if _, isLit := as.Rhs[0].(*ast.FuncLit); isLit {
+						continue // a callback handed to the handler (the command loop itself, after STARTTLS) is not this command's doing
+					}
+				}
+				body = append(body, st)
+			}
+			w.block(d.in, d.in+".dispatch", body, inherited)
 		}
 		var as []string
 		seen := map[string]bool{}
